@@ -30,26 +30,27 @@ pub fn setup(name: &str, tier_depth: usize, max_rewinds: u32, wall: f64) -> (cra
             _ => vec![f + 3, f + 6, ctip, ctip + 50],
         },
         rewind_heights: match name {
-            "tiny" => vec![f, f + 1],
-            "small" => vec![f, f + 1, f + 3, f + 4],
+            "tiny" => vec![f, f + 1, f + 2],
+            "small" => vec![f, f + 1, f + 2, f + 3, f + 4],
             _ => ends.iter().copied().filter(|h| *h < ctip).chain([f + 4, f + 60]).collect(),
         },
         with_roots: false,
         with_client: false,
         free_scans: true,
         segment_scans: false,
+        max_run: if name == "mid" { 2 } else { usize::MAX },
         splits: match name {
             "tiny" | "small" => vec![],
-            _ => vec![f + 50, f + 107],
+            _ => vec![f + 107],
         },
     };
     (u, cfg)
 }
 
-fn params(tier: Tier) -> (&'static str, usize, u32, f64) {
+fn params(tier: Tier) -> Vec<(&'static str, usize, u32, f64)> {
     match tier {
-        Tier::Quick => ("tiny", 12, 1, 36.0),
-        Tier::Thorough => ("mid", 10, 2, 900.0),
+        Tier::Quick => vec![("tiny", 12, 1, 36.0)],
+        Tier::Thorough => vec![("tiny", 14, 2, 150.0), ("small", 12, 1, 330.0), ("mid", 8, 1, 380.0)],
     }
 }
 
@@ -67,8 +68,6 @@ pub fn replay(kind: &str, case: &Value) -> Result<(), String> {
 
 pub fn run(args: &Args) -> i32 {
     let run = Run::new(args, "model_checking");
-    let (name, depth, rewinds, wall) = params(args.tier);
-    let (u, cfg) = setup(name, depth, rewinds, wall);
     run.set_rule(
         "explicit-state BFS over the real SQLite wallet: operations Scan(every contiguous run of segments/splits), Tip(h), Rewind(h)+switch to an \
          alternative branch; states matched on a canonical logical dump of the database + reference model; a state is non-trivial when it was \
@@ -77,13 +76,16 @@ pub fn run(args: &Args) -> i32 {
     );
     run.assume("expiry of an un-mined transaction with unknown expiry height is min_observed_height + 40 (documented in wallet/common.rs); while an orphaned transaction is unexpired only the bracket [ledger - spent_by_orphans, ledger + received_in_orphans] is required");
     run.assume("get_wallet_summary may return None while the wallet knows no chain tip");
-    let fresh = (0..u.chains.len()).map(|c| graph::fresh_reference(&u, &cfg, c)).collect();
-    let cx = Ctx { u: &u, cfg: &cfg, fresh };
-    let (stats, failures) = graph::search(&cx, &[&graph::check_balance]);
-    record(&run, name, &u, &cfg, &stats, failures);
-    run.sample(json!({"universe": name, "ops": [Op::Scan{from: universes::FIRST + 2, to: universes::FIRST + 2}, Op::Tip{h: universes::FIRST + 4}, Op::Scan{from: universes::FIRST, to: universes::FIRST + 1}, Op::Rewind{h: universes::FIRST + 1, switch: 1}]}));
-    run.require(stats.outcomes.contains_key("complete:matches-fresh") || run.failure_count() > 0, "no fully scanned state reached");
-    run.require(stats.outcomes.contains_key("spends:some") || run.failure_count() > 0, "no spend observed");
+    for (name, depth, rewinds, wall) in params(args.tier) {
+        let (u, cfg) = setup(name, depth, rewinds, wall);
+        let fresh = (0..u.chains.len()).map(|c| graph::fresh_reference(&u, &cfg, c)).collect();
+        let cx = Ctx { u: &u, cfg: &cfg, fresh };
+        let (stats, failures) = graph::search(&cx, &[&graph::check_balance]);
+        record(&run, name, &u, &cfg, &stats, failures);
+        run.require(stats.outcomes.contains_key("complete:matches-fresh") || run.failure_count() > 0, "no fully scanned state reached");
+        run.require(stats.outcomes.contains_key("spends:some") || run.failure_count() > 0, "no spend observed");
+    }
+    run.sample(json!({"universe": "tiny", "ops": [Op::Scan{from: universes::FIRST + 2, to: universes::FIRST + 2}, Op::Tip{h: universes::FIRST + 4}, Op::Scan{from: universes::FIRST, to: universes::FIRST + 1}, Op::Rewind{h: universes::FIRST + 1, switch: 1}]}));
     run.finish(&replay)
 }
 
@@ -103,7 +105,7 @@ pub fn record(run: &Run, name: &str, u: &crate::universe::Universe, cfg: &Cfg, s
             "states": stats.states, "transitions": stats.transitions, "refused_operations": stats.refused,
             "per_depth_frontier": stats.per_depth, "capped": stats.capped,
             "bounds": {"max_depth": cfg.max_depth, "max_rewinds": cfg.max_rewinds, "tips": cfg.tips, "rewind_heights": cfg.rewind_heights, "splits": cfg.splits,
-                       "with_roots": cfg.with_roots, "with_client": cfg.with_client, "free_scans": cfg.free_scans, "segment_scans": cfg.segment_scans, "retention_interval": cfg.retention},
+                       "with_roots": cfg.with_roots, "with_client": cfg.with_client, "free_scans": cfg.free_scans, "segment_scans": cfg.segment_scans, "max_run": if cfg.max_run == usize::MAX { 0 } else { cfg.max_run }, "retention_interval": cfg.retention},
         }),
     );
     if let Some(c) = &stats.capped {
